@@ -114,11 +114,12 @@ Fixpoint do_syms (f : flags) (syms : list str) (out : list ast) (stk : list site
                  end
   end.
 
+(* closing bracket: operators are applied down to the nearest context token; it must be the matching opener
+   and something must have been produced since it was pushed *)
 Fixpoint close_ctx (opener : str) (stk : list sitem) (out : list ast) : res (list ast * list sitem) :=
   match stk with
   | [] => inr ESyntax
-  | SCtx t i :: stk' => if leqb t opener then inl (out, stk') else
-                          match operate (SCtx t i) out with inl out' => close_ctx opener stk' out' | inr e => inr e end
+  | SCtx t i :: stk' => if leqb t opener then (if (i =? length out)%nat then inr ESyntax else inl (out, stk')) else inr ESyntax
   | it :: stk' => match operate it out with inl out' => close_ctx opener stk' out' | inr e => inr e end
   end.
 
